@@ -263,6 +263,8 @@ pub fn low_set(n: usize) -> u64 {
 /// Behavior is undefined if `n > 64`.
 #[inline]
 pub unsafe fn low_set_unchecked(n: usize) -> u64 {
+    #[cfg(feature = "verif_hooks")]
+    assert!(n < LOW_SET.len(), "verif_hooks: oob");
     *LOW_SET.get_unchecked(n)
 }
 
@@ -291,6 +293,8 @@ pub fn high_set(n: usize) -> u64 {
 /// Behavior is undefined if `n > 64`.
 #[inline]
 pub unsafe fn high_set_unchecked(n: usize) -> u64 {
+    #[cfg(feature = "verif_hooks")]
+    assert!(n < HIGH_SET.len(), "verif_hooks: oob");
     *HIGH_SET.get_unchecked(n)
 }
 
@@ -374,6 +378,8 @@ pub unsafe fn select(n: u64, rank: usize) -> usize {
         let cumulative = (cumulative + (cumulative >> 4)) & 0x0F0F_0F0F_0F0F_0F0F;
         let (cumulative, _) = cumulative.overflowing_mul(0x0101_0101_0101_0101);
 
+        #[cfg(feature = "verif_hooks")]
+        assert!(rank + 1 < _PS_OVERFLOW.len(), "verif_hooks: oob");
         // We add `128 - rank - 1` to each byte and mask out all bits except `128`. We get
         // the bit offset for the byte containing the answer by counting trailing zeros.
         let mask = (cumulative + *_PS_OVERFLOW.get_unchecked(rank + 1)) & 0x8080_8080_8080_8080;
@@ -382,6 +388,8 @@ pub unsafe fn select(n: u64, rank: usize) -> usize {
         // Subtract the number of set bits in the previous bytes from the rank.
         let relative_rank = rank - (((cumulative << 8) >> offset) as usize & 0xFF);
 
+        #[cfg(feature = "verif_hooks")]
+        assert!((relative_rank << 8) + ((n >> offset) as usize & 0xFF) < _SELECT_IN_BYTE.len(), "verif_hooks: oob");
         offset + (*_SELECT_IN_BYTE.get_unchecked((relative_rank << 8) + ((n >> offset) as usize & 0xFF)) as usize)
     }
 }
